@@ -1,17 +1,802 @@
-//! C11 — correspondence driver (stub: not built yet).
+//! C11 — matrix resizing histories (history protocol).  See lean/Driver/C11.lean for the
+//! protocol.  Every operation runs under `catch_unwind`; after a panic the *surviving* matrix is
+//! observed and used by the following operations.
 
 use crate::util::*;
+use easy_ml::matrices::slices::{Slice, Slice2D};
+use easy_ml::matrices::Matrix;
 
-pub fn gen(_g: &mut Gen) {}
+// ---------------------------------------------------------------------------------------------
+// slices: a small AST shared by generator (size tracking) and runner (building `Slice`)
+// ---------------------------------------------------------------------------------------------
 
-pub struct Runner;
+#[derive(Clone, Debug)]
+enum Sl {
+    All,
+    None,
+    Single(usize),
+    Range(usize, usize),
+    Not(Box<Sl>),
+    And(Box<Sl>, Box<Sl>),
+    Or(Box<Sl>, Box<Sl>),
+}
+
+impl Sl {
+    fn show(&self) -> String {
+        match self {
+            Sl::All => "all".into(),
+            Sl::None => "none".into(),
+            Sl::Single(i) => format!("single({})", i),
+            Sl::Range(a, b) => format!("range({},{})", a, b),
+            Sl::Not(s) => format!("not({})", s.show()),
+            Sl::And(a, b) => format!("and({},{})", a.show(), b.show()),
+            Sl::Or(a, b) => format!("or({},{})", a.show(), b.show()),
+        }
+    }
+    /// generator-side reading of the slice (only used to track the expected size)
+    fn accepts(&self, i: usize) -> bool {
+        match self {
+            Sl::All => true,
+            Sl::None => false,
+            Sl::Single(k) => *k == i,
+            Sl::Range(a, b) => *a <= i && i < *b,
+            Sl::Not(s) => !s.accepts(i),
+            Sl::And(a, b) => a.accepts(i) && b.accepts(i),
+            Sl::Or(a, b) => a.accepts(i) || b.accepts(i),
+        }
+    }
+    fn count(&self, n: usize) -> usize {
+        (0..n).filter(|i| self.accepts(*i)).count()
+    }
+    fn build(&self) -> Slice {
+        match self {
+            Sl::All => Slice::All(),
+            Sl::None => Slice::None(),
+            Sl::Single(i) => Slice::Single(*i),
+            Sl::Range(a, b) => Slice::Range(*a..*b),
+            // both the enum constructors and the builder methods
+            Sl::Not(s) => s.build().not(),
+            Sl::And(a, b) => Slice::And(Box::new(a.build()), Box::new(b.build())),
+            Sl::Or(a, b) => a.build().or(b.build()),
+        }
+    }
+}
+
+fn split_top(s: &str) -> Vec<&str> {
+    let mut out = vec![];
+    let (mut depth, mut start) = (0i32, 0usize);
+    for (i, ch) in s.char_indices() {
+        match ch {
+            '(' => depth += 1,
+            ')' => depth -= 1,
+            ',' if depth == 0 => {
+                out.push(&s[start..i]);
+                start = i + 1;
+            }
+            _ => {}
+        }
+    }
+    out.push(&s[start..]);
+    out
+}
+
+fn parse_slice(s: &str) -> Sl {
+    let (name, args) = match s.find('(') {
+        Some(p) => (&s[..p], &s[p + 1..s.len() - 1]),
+        None => (s, ""),
+    };
+    let parts: Vec<&str> = if args.is_empty() { vec![] } else { split_top(args) };
+    match (name, parts.len()) {
+        ("all", 0) => Sl::All,
+        ("none", 0) => Sl::None,
+        ("single", 1) => Sl::Single(parts[0].parse().expect("single")),
+        ("range", 2) => Sl::Range(parts[0].parse().expect("range"), parts[1].parse().expect("range")),
+        ("not", 1) => Sl::Not(Box::new(parse_slice(parts[0]))),
+        ("and", 2) => Sl::And(Box::new(parse_slice(parts[0])), Box::new(parse_slice(parts[1]))),
+        ("or", 2) => Sl::Or(Box::new(parse_slice(parts[0])), Box::new(parse_slice(parts[1]))),
+        _ => panic!("bad slice {}", s),
+    }
+}
+
+// ---------------------------------------------------------------------------------------------
+// generation
+// ---------------------------------------------------------------------------------------------
+
+/// The generator's own bookkeeping of the expected size (what the property demands), so that
+/// arguments can be chosen relative to the current size.  It decides nothing.
+#[derive(Clone, Copy)]
+struct Size {
+    r: usize,
+    c: usize,
+}
+
+#[derive(Clone)]
+enum GOp {
+    InsertRow(usize, u64),
+    InsertRowWith(usize, Vec<u64>),
+    InsertColumn(usize, u64),
+    InsertColumnWith(usize, Vec<u64>),
+    RemoveRow(usize),
+    RemoveColumn(usize),
+    Retain(bool, Sl, Sl), // true: retain_mut
+    Transpose,
+    TransposeMut,
+    Set(usize, usize, u64, bool), // true: via get_reference_mut
+    MapMut(u64),
+    MapMutWithIndex(u64),
+}
+
+fn show_vals(v: &[u64]) -> String {
+    if v.is_empty() {
+        "-".into()
+    } else {
+        v.iter().map(|x| x.to_string()).collect::<Vec<_>>().join(",")
+    }
+}
+
+impl GOp {
+    fn line(&self) -> String {
+        match self {
+            GOp::InsertRow(p, v) => format!("insert_row {} {}", p, v),
+            GOp::InsertRowWith(p, vs) => format!("insert_row_with {} {}", p, show_vals(vs)),
+            GOp::InsertColumn(p, v) => format!("insert_column {} {}", p, v),
+            GOp::InsertColumnWith(p, vs) => format!("insert_column_with {} {}", p, show_vals(vs)),
+            GOp::RemoveRow(p) => format!("remove_row {}", p),
+            GOp::RemoveColumn(p) => format!("remove_column {}", p),
+            GOp::Retain(mutating, r, c) => format!(
+                "{} rows={} cols={}",
+                if *mutating { "retain_mut" } else { "retain" },
+                r.show(),
+                c.show()
+            ),
+            GOp::Transpose => "transpose".into(),
+            GOp::TransposeMut => "transpose_mut".into(),
+            GOp::Set(r, c, v, grm) => {
+                format!("set {} {} {} via={}", r, c, v, if *grm { "get_reference_mut" } else { "set" })
+            }
+            GOp::MapMut(k) => format!("map_mut {}", k),
+            GOp::MapMutWithIndex(k) => format!("map_mut_with_index {}", k),
+        }
+    }
+    fn name(&self) -> &'static str {
+        match self {
+            GOp::InsertRow(..) => "insert_row",
+            GOp::InsertRowWith(..) => "insert_row_with",
+            GOp::InsertColumn(..) => "insert_column",
+            GOp::InsertColumnWith(..) => "insert_column_with",
+            GOp::RemoveRow(..) => "remove_row",
+            GOp::RemoveColumn(..) => "remove_column",
+            GOp::Retain(true, ..) => "retain_mut",
+            GOp::Retain(false, ..) => "retain",
+            GOp::Transpose => "transpose",
+            GOp::TransposeMut => "transpose_mut",
+            GOp::Set(..) => "set",
+            GOp::MapMut(..) => "map_mut",
+            GOp::MapMutWithIndex(..) => "map_mut_with_index",
+        }
+    }
+    /// does the documented precondition hold at this size?
+    fn valid(&self, s: Size) -> bool {
+        match self {
+            GOp::InsertRow(p, _) => *p <= s.r,
+            GOp::InsertRowWith(p, vs) => *p <= s.r && vs.len() >= s.c,
+            GOp::InsertColumn(p, _) => *p <= s.c,
+            GOp::InsertColumnWith(p, vs) => *p <= s.c && vs.len() >= s.r,
+            GOp::RemoveRow(p) => s.r > 1 && *p < s.r,
+            GOp::RemoveColumn(p) => s.c > 1 && *p < s.c,
+            GOp::Retain(_, r, c) => r.count(s.r) > 0 && c.count(s.c) > 0,
+            GOp::Transpose | GOp::TransposeMut | GOp::MapMut(_) | GOp::MapMutWithIndex(_) => true,
+            GOp::Set(r, c, _, _) => *r < s.r && *c < s.c,
+        }
+    }
+    /// the size the property demands afterwards
+    fn after(&self, s: Size) -> Size {
+        if !self.valid(s) {
+            return s;
+        }
+        match self {
+            GOp::InsertRow(..) | GOp::InsertRowWith(..) => Size { r: s.r + 1, c: s.c },
+            GOp::InsertColumn(..) | GOp::InsertColumnWith(..) => Size { r: s.r, c: s.c + 1 },
+            GOp::RemoveRow(_) => Size { r: s.r - 1, c: s.c },
+            GOp::RemoveColumn(_) => Size { r: s.r, c: s.c - 1 },
+            GOp::Retain(_, r, c) => Size { r: r.count(s.r), c: c.count(s.c) },
+            GOp::Transpose | GOp::TransposeMut => Size { r: s.c, c: s.r },
+            _ => s,
+        }
+    }
+}
+
+fn count_op(g: &mut Gen, op: &GOp, s: Size, ctx: &str) {
+    let v = if op.valid(s) { "valid" } else { "invalid" };
+    g.count(&format!("{}.{}.{}", ctx, op.name(), v));
+    match op {
+        GOp::InsertRowWith(_, vs) => {
+            let k = if vs.len() < s.c { "too_few" } else if vs.len() == s.c { "exact" } else { "surplus" };
+            g.count(&format!("{}.insert_row_with.values_{}", ctx, k));
+        }
+        GOp::InsertColumnWith(_, vs) => {
+            let k = if vs.len() < s.r { "too_few" } else if vs.len() == s.r { "exact" } else { "surplus" };
+            g.count(&format!("{}.insert_column_with.values_{}", ctx, k));
+        }
+        GOp::TransposeMut => {
+            g.count(&format!("{}.transpose_mut.{}", ctx, if s.r == s.c { "square" } else { "fallback" }));
+        }
+        _ => {}
+    }
+}
+
+/// `n` fresh distinguishable values (all ≥ 50, the initial elements are 1..=R*C ≤ 49)
+fn fresh(counter: &mut u64, n: usize) -> Vec<u64> {
+    (0..n)
+        .map(|_| {
+            *counter += 1;
+            *counter
+        })
+        .collect()
+}
+
+/// The slice shapes of the exhaustive alphabet, instantiated at dimension length `n`.
+fn slice_shapes(n: usize) -> Vec<Sl> {
+    vec![
+        Sl::All,
+        Sl::None,
+        Sl::Single(0),
+        Sl::Single(n),
+        Sl::Range(1, n + 1),
+        Sl::Not(Box::new(Sl::Single(0))),
+        Sl::And(Box::new(Sl::Range(0, 2)), Box::new(Sl::Not(Box::new(Sl::Single(1))))),
+        Sl::Or(Box::new(Sl::Single(0)), Box::new(Sl::Single(n.saturating_sub(1)))),
+    ]
+}
+
+/// The operation alphabet at size `s`: every operation with arguments in `0..=len+1`, value lists
+/// of length `0..=len+1`.  `counter` provides distinguishable inserted values.
+fn alphabet(s: Size, counter: &mut u64) -> Vec<GOp> {
+    let mut ops = vec![];
+    for p in 0..=s.r + 1 {
+        ops.push(GOp::InsertRow(p, fresh(counter, 1)[0]));
+        ops.push(GOp::RemoveRow(p));
+    }
+    for p in 0..=s.c + 1 {
+        ops.push(GOp::InsertColumn(p, fresh(counter, 1)[0]));
+        ops.push(GOp::RemoveColumn(p));
+    }
+    // iterator forms: every position with exactly enough values; every length 0..=len+1 at the
+    // first, the last and the first invalid position
+    for p in 0..=s.r + 1 {
+        ops.push(GOp::InsertRowWith(p, fresh(counter, s.c)));
+    }
+    for p in [0, s.r, s.r + 1] {
+        for n in 0..=s.c + 1 {
+            if n != s.c {
+                ops.push(GOp::InsertRowWith(p, fresh(counter, n)));
+            }
+        }
+    }
+    for p in 0..=s.c + 1 {
+        ops.push(GOp::InsertColumnWith(p, fresh(counter, s.r)));
+    }
+    for p in [0, s.c, s.c + 1] {
+        for n in 0..=s.r + 1 {
+            if n != s.r {
+                ops.push(GOp::InsertColumnWith(p, fresh(counter, n)));
+            }
+        }
+    }
+    // retention: each shape on the rows with all columns, on the columns with all rows, and a
+    // few mixed ones; alternating the mutating and the allocating form
+    let mut k = 0;
+    for sh in slice_shapes(s.r) {
+        ops.push(GOp::Retain(k % 2 == 0, sh, Sl::All));
+        k += 1;
+    }
+    for sh in slice_shapes(s.c).into_iter().skip(1) {
+        ops.push(GOp::Retain(k % 2 == 0, Sl::All, sh));
+        k += 1;
+    }
+    ops.push(GOp::Retain(true, Sl::Single(0), Sl::Not(Box::new(Sl::Single(0)))));
+    ops.push(GOp::Retain(false, Sl::Not(Box::new(Sl::Single(0))), Sl::Range(0, 1)));
+    ops.push(GOp::Retain(true, Sl::Single(s.r), Sl::None));
+    ops.push(GOp::Transpose);
+    ops.push(GOp::TransposeMut);
+    ops.push(GOp::Set(s.r - 1, s.c - 1, fresh(counter, 1)[0], false));
+    ops.push(GOp::Set(0, 0, fresh(counter, 1)[0], true));
+    ops.push(GOp::Set(s.r, 0, fresh(counter, 1)[0], false));
+    ops.push(GOp::Set(0, s.c, fresh(counter, 1)[0], true));
+    ops.push(GOp::Set(0, s.c, fresh(counter, 1)[0], false));
+    ops.push(GOp::MapMut(1000));
+    ops.push(GOp::MapMutWithIndex(100));
+    ops
+}
+
+const NEW_VIAS: [&str; 3] = ["from", "flat", "from_fn"];
+
+fn gen_exhaustive(g: &mut Gen) {
+    // all sequences of length <= 3: the first two operations are ordinary lines of a case, the
+    // last one ranges over the whole alphabet as `try` lines (operation on a clone)
+    let mut via = 0;
+    let mut new_line = |r: usize, c: usize| {
+        via += 1;
+        format!("@ new {}x{} via={}", r, c, NEW_VIAS[via % 3])
+    };
+    let mut prefixes2: Vec<(Size, GOp, GOp)> = vec![];
+    for r in 1..=3usize {
+        for c in 1..=3usize {
+            let s0 = Size { r, c };
+            let mut counter = 50u64;
+            // length 1
+            g.op(new_line(r, c));
+            g.count("exhaustive.case.len1");
+            let a1 = alphabet(s0, &mut counter);
+            for op in &a1 {
+                count_op(g, op, s0, "exh");
+                g.op(format!("try {}", op.line()));
+            }
+            // length 2
+            for op1 in &a1 {
+                g.op(new_line(r, c));
+                g.count("exhaustive.case.len2");
+                g.op(op1.line());
+                let s1 = op1.after(s0);
+                let mut counter2 = 200u64;
+                let a2 = alphabet(s1, &mut counter2);
+                for op2 in &a2 {
+                    count_op(g, op2, s1, "exh");
+                    g.op(format!("try {}", op2.line()));
+                    prefixes2.push((s0, op1.clone(), op2.clone()));
+                }
+            }
+        }
+    }
+    // length 3: all prefixes in the thorough tier, a seeded sample in the quick tier
+    let total = prefixes2.len();
+    let chosen: Vec<usize> = if g.thorough {
+        (0..total).collect()
+    } else {
+        let mut idx: Vec<usize> = (0..total).collect();
+        g.rng.shuffle(&mut idx);
+        idx.truncate(2500);
+        idx
+    };
+    g.count_n("exhaustive.len3.prefixes_total", total as u64);
+    for i in chosen {
+        let (s0, op1, op2) = prefixes2[i].clone();
+        g.op(new_line(s0.r, s0.c));
+        g.count("exhaustive.case.len3");
+        g.op(op1.line());
+        let s1 = op1.after(s0);
+        g.op(op2.line());
+        let s2 = op2.after(s1);
+        if !op1.valid(s0) || !op2.valid(s1) {
+            g.count("exhaustive.case.len3.after_invalid_op");
+        }
+        let mut counter3 = 400u64;
+        for op3 in alphabet(s2, &mut counter3) {
+            count_op(g, &op3, s2, "exh");
+            g.op(format!("try {}", op3.line()));
+        }
+    }
+}
+
+/// a slice that accepts at least one index below `n` (n >= 1)
+fn friendly_slice(g: &mut Gen, n: usize) -> Sl {
+    match g.rng.below(8) {
+        0 | 1 => Sl::All,
+        2 => Sl::Single(g.rng.below(n)),
+        3 => {
+            let a = g.rng.below(n);
+            let b = if g.rng.chance(1, 5) { usize::MAX } else { g.rng.range(a + 1, n + 1) };
+            Sl::Range(a, b)
+        }
+        4 if n > 1 => Sl::Not(Box::new(Sl::Single(g.rng.below(n)))),
+        5 => Sl::Or(Box::new(Sl::Single(g.rng.below(n))), Box::new(random_slice(g, n, 1))),
+        6 => Sl::And(Box::new(Sl::Range(0, n)), Box::new(friendly_slice(g, n))),
+        7 => Sl::Not(Box::new(Sl::Not(Box::new(friendly_slice(g, n))))),
+        _ => Sl::Range(0, g.rng.range(1, n + 1)),
+    }
+}
+
+fn random_slice(g: &mut Gen, n: usize, depth: usize) -> Sl {
+    let k = if depth == 0 { g.rng.below(5) } else { g.rng.below(9) };
+    match k {
+        0 => Sl::All,
+        1 => {
+            if g.rng.chance(1, 4) {
+                Sl::None
+            } else {
+                Sl::All
+            }
+        }
+        2 => Sl::Single(pick_index(g, n)),
+        3 | 4 => {
+            let a = g.rng.below(n + 1);
+            let b = match g.rng.below(6) {
+                0 => usize::MAX,
+                1 => a,
+                _ => g.rng.below(n + 2),
+            };
+            Sl::Range(a, b)
+        }
+        5 | 6 => Sl::Not(Box::new(random_slice(g, n, depth - 1))),
+        7 => Sl::And(Box::new(random_slice(g, n, depth - 1)), Box::new(random_slice(g, n, depth - 1))),
+        _ => Sl::Or(Box::new(random_slice(g, n, depth - 1)), Box::new(random_slice(g, n, depth - 1))),
+    }
+}
+
+/// mostly an index inside `0..n`; sometimes `n`, `n+1`, `usize::MAX`
+fn pick_index(g: &mut Gen, n: usize) -> usize {
+    match g.rng.below(24) {
+        0 => n,
+        1 => n + 1,
+        2 => usize::MAX,
+        _ => g.rng.below(n.max(1)),
+    }
+}
+
+/// mostly a valid insertion position `0..=n`; sometimes beyond
+fn pick_position(g: &mut Gen, n: usize) -> usize {
+    match g.rng.below(12) {
+        0 => n + 1,
+        1 => usize::MAX,
+        2 => n + 2,
+        _ => g.rng.below(n + 1),
+    }
+}
+
+fn pick_count(g: &mut Gen, n: usize) -> usize {
+    match g.rng.below(10) {
+        0 => n.saturating_sub(1),
+        1 => 0,
+        2 => n + 1,
+        3 => n + 3,
+        _ => n,
+    }
+}
+
+fn random_op(g: &mut Gen, s: Size, counter: &mut u64) -> GOp {
+    // keep the matrix from growing without bound: prefer shrinking operations when large
+    let big = s.r * s.c > 30;
+    let k = if big && g.rng.chance(1, 2) { 4 + g.rng.below(4) } else { g.rng.below(16) };
+    match k {
+        0 => GOp::InsertRow(pick_position(g, s.r), fresh(counter, 1)[0]),
+        1 => {
+            let n = pick_count(g, s.c);
+            GOp::InsertRowWith(pick_position(g, s.r), fresh(counter, n))
+        }
+        2 => GOp::InsertColumn(pick_position(g, s.c), fresh(counter, 1)[0]),
+        3 => {
+            let n = pick_count(g, s.r);
+            GOp::InsertColumnWith(pick_position(g, s.c), fresh(counter, n))
+        }
+        4 => GOp::RemoveRow(pick_index(g, s.r)),
+        5 => GOp::RemoveColumn(pick_index(g, s.c)),
+        6 | 7 => {
+            // mostly retentions that keep something; one in four from the arbitrary stream
+            let (rs, cs) = if g.rng.chance(3, 4) {
+                (friendly_slice(g, s.r), friendly_slice(g, s.c))
+            } else {
+                let depth = g.rng.below(3);
+                let rs = random_slice(g, s.r, depth);
+                let depth = g.rng.below(3);
+                (rs, random_slice(g, s.c, depth))
+            };
+            GOp::Retain(g.rng.chance(1, 2), rs, cs)
+        }
+        8 | 9 => GOp::Transpose,
+        10 | 11 => GOp::TransposeMut,
+        12 | 13 => GOp::Set(pick_index(g, s.r), pick_index(g, s.c), fresh(counter, 1)[0], g.rng.chance(1, 2)),
+        14 => GOp::MapMut(g.rng.range(1, 5) as u64 * 1000),
+        _ => GOp::MapMutWithIndex(g.rng.range(1, 5) as u64 * 100),
+    }
+}
+
+fn gen_random(g: &mut Gen) {
+    let cases = if g.thorough { 3000 } else { 600 };
+    for _ in 0..cases {
+        let r = g.rng.range(1, 4);
+        let c = g.rng.range(1, 4);
+        let via = *g.rng.pick(&NEW_VIAS);
+        g.op(format!("@ new {}x{} via={}", r, c, via));
+        let len = g.rng.range(1, 60);
+        g.count(&format!("random.case.len<={}", ((len + 9) / 10) * 10));
+        let mut s = Size { r, c };
+        let mut counter = 50u64;
+        let mut seen_invalid = false;
+        for _ in 0..len {
+            let op = random_op(g, s, &mut counter);
+            count_op(g, &op, s, "rnd");
+            if seen_invalid {
+                g.count("rnd.op_after_an_invalid_op");
+            }
+            if !op.valid(s) {
+                seen_invalid = true;
+            }
+            if g.rng.chance(1, 6) {
+                g.op(format!("try {}", op.line()));
+            } else {
+                g.op(op.line());
+                s = op.after(s);
+            }
+            g.count(&format!("rnd.size.rows={}", s.r.min(8)));
+            g.count(&format!("rnd.size.columns={}", s.c.min(8)));
+        }
+    }
+}
+
+fn gen_constructors(g: &mut Gen) {
+    for (r, c) in [(0usize, 0usize), (0, 1), (1, 0), (0, 3), (3, 0)] {
+        for via in NEW_VIAS {
+            g.op(format!("@ new {}x{} via={}", r, c, via));
+            g.op("transpose".to_string());
+            g.count("constructor.zero_size");
+        }
+    }
+    for rows in ["none", "-", "-;-", "1", "1,2", "1;2", "1,2;3", "1;2,3", "1,2;3,4;5", "1,2;-", "1,2,3;4,5,6", "7,8;9,10;11,12"] {
+        g.op(format!("@ from {}", rows));
+        g.op("transpose_mut".to_string());
+        g.op("insert_row 1 99".to_string());
+        g.count("constructor.from_rows");
+    }
+    for (r, c, vals) in [
+        (1usize, 1usize, "5"),
+        (2, 2, "1,2,3"),
+        (2, 2, "1,2,3,4"),
+        (2, 2, "1,2,3,4,5"),
+        (0, 0, "-"),
+        (0, 5, "-"),
+        (1, 0, "-"),
+        (2, 3, "1,2,3,4,5,6"),
+        (3, 2, "1,2,3,4,5,6"),
+        (6, 1, "1,2,3,4,5,6"),
+        (1, 6, "1,2,3,4,5,6"),
+        (2, 2, "-"),
+    ] {
+        g.op(format!("@ flat {} {} {}", r, c, vals));
+        g.op("remove_column 0".to_string());
+        g.op("insert_column_with 0 70,71,72,73,74,75,76".to_string());
+        g.count("constructor.from_flat_row_major");
+    }
+}
+
+pub fn gen(g: &mut Gen) {
+    gen_constructors(g);
+    gen_exhaustive(g);
+    gen_random(g);
+}
+
+// ---------------------------------------------------------------------------------------------
+// running against easy-ml
+// ---------------------------------------------------------------------------------------------
+
+pub struct Runner {
+    m: Option<Matrix<u64>>,
+}
+
+fn parse_vals(s: &str) -> Vec<u64> {
+    split_comma(s).iter().map(|t| t.parse::<u64>().expect("u64")).collect()
+}
+
+/// `data.len()`, read off the `Debug` output (`Matrix { data: [..], rows: .., columns: .. }`)
+fn storage_len(m: &Matrix<u64>) -> usize {
+    let text = format!("{:?}", m);
+    let start = text.find("data: [").expect("Debug output") + "data: [".len();
+    let end = start + text[start..].find(']').expect("Debug output");
+    let inner = text[start..end].trim();
+    if inner.is_empty() {
+        0
+    } else {
+        inner.split(',').count()
+    }
+}
+
+/// size, every element through `get`, both copying iterators; `## len=`
+fn observe(m: &Matrix<u64>) -> (String, usize) {
+    let (rows, cols) = m.size();
+    let len = storage_len(m);
+    let mut row_strs = vec![];
+    for r in 0..rows {
+        let mut cells = vec![];
+        for c in 0..cols {
+            cells.push(match catch(|| m.get(r, c)) {
+                Ok(v) => v.to_string(),
+                Err(k) => format!("!{}", k.as_str()),
+            });
+        }
+        row_strs.push(if cells.is_empty() { "-".to_string() } else { cells.join(",") });
+    }
+    // The iterators use unchecked accesses sized by `rows`/`columns`: walking them on a matrix
+    // whose storage is shorter than rows*columns would be undefined behaviour in this process.
+    // Such a state is a violation already visible in the elements above.
+    let safe = rows.checked_mul(cols).map(|n| n <= len).unwrap_or(false);
+    let iter_str = |row_major: bool| -> String {
+        if !safe {
+            return "!storage-too-short".to_string();
+        }
+        match catch(|| {
+            if row_major {
+                m.row_major_iter().collect::<Vec<u64>>()
+            } else {
+                m.column_major_iter().collect::<Vec<u64>>()
+            }
+        }) {
+            Ok(v) => show_vals(&v),
+            Err(k) => format!("!{}", k.as_str()),
+        }
+    };
+    (
+        format!("{}x{} {} rm={} cm={}", rows, cols, row_strs.join(";"), iter_str(true), iter_str(false)),
+        len,
+    )
+}
+
+fn answer(outcome: Result<(), PanicKind>, m: &Matrix<u64>) -> String {
+    let (obs, len) = observe(m);
+    match outcome {
+        Ok(()) => format!("ok {} ## len={}", obs, len),
+        Err(k) => format!("panic {} ## len={} kind={}", obs, len, k.as_str()),
+    }
+}
+
+/// Applies one operation line to `m` (allocating operations replace `*m` by their result).
+pub(crate) fn apply(m: &mut Matrix<u64>, toks: &[&str]) -> Option<Result<(), PanicKind>> {
+    let us = |i: usize| toks[i].parse::<usize>().expect("usize");
+    let val = |i: usize| toks[i].parse::<u64>().expect("u64");
+    Some(match toks[0] {
+        "insert_row" => {
+            let (p, v) = (us(1), val(2));
+            catch(|| m.insert_row(p, v))
+        }
+        "insert_row_with" => {
+            let (p, vs) = (us(1), parse_vals(toks[2]));
+            catch(|| m.insert_row_with(p, vs.into_iter()))
+        }
+        "insert_column" => {
+            let (p, v) = (us(1), val(2));
+            catch(|| m.insert_column(p, v))
+        }
+        "insert_column_with" => {
+            let (p, vs) = (us(1), parse_vals(toks[2]));
+            catch(|| m.insert_column_with(p, vs.into_iter()))
+        }
+        "remove_row" => {
+            let p = us(1);
+            catch(|| m.remove_row(p))
+        }
+        "remove_column" => {
+            let p = us(1);
+            catch(|| m.remove_column(p))
+        }
+        "retain_mut" | "retain" => {
+            let rs = parse_slice(opt_arg("rows", toks).expect("rows="));
+            let cs = parse_slice(opt_arg("cols", toks).expect("cols="));
+            if toks[0] == "retain_mut" {
+                // both builder orders
+                let slice = if rs.show().len() % 2 == 0 {
+                    Slice2D::new().rows(rs.build()).columns(cs.build())
+                } else {
+                    Slice2D::new().columns(cs.build()).rows(rs.build())
+                };
+                catch(|| m.retain_mut(slice))
+            } else {
+                let slice = Slice2D::new().rows(rs.build()).columns(cs.build());
+                match catch(|| m.retain(slice)) {
+                    Ok(r) => {
+                        *m = r;
+                        Ok(())
+                    }
+                    Err(k) => Err(k),
+                }
+            }
+        }
+        "transpose" => match catch(|| m.transpose()) {
+            Ok(t) => {
+                *m = t;
+                Ok(())
+            }
+            Err(k) => Err(k),
+        },
+        "transpose_mut" => catch(|| m.transpose_mut()),
+        "set" => {
+            let (r, c, v) = (us(1), us(2), val(3));
+            if opt_arg("via", toks) == Some("get_reference_mut") {
+                catch(|| {
+                    *m.get_reference_mut(r, c) = v;
+                })
+            } else {
+                catch(|| m.set(r, c, v))
+            }
+        }
+        "map_mut" => {
+            let k = val(1);
+            catch(|| m.map_mut(|x| x + k))
+        }
+        "map_mut_with_index" => {
+            let k = val(1);
+            catch(|| m.map_mut_with_index(|x, i, j| x + k * (i as u64 + 1) + j as u64))
+        }
+        _ => return None,
+    })
+}
 
 impl Runner {
     pub fn new() -> Runner {
-        Runner
+        Runner { m: None }
     }
 
-    pub fn step(&mut self, _toks: &[&str]) -> String {
-        "unimplemented".into()
+    fn construct(&mut self, built: Result<Matrix<u64>, PanicKind>) -> String {
+        match built {
+            Ok(m) => {
+                let a = answer(Ok(()), &m);
+                self.m = Some(m);
+                a
+            }
+            Err(k) => {
+                self.m = None;
+                format!("panic ## kind={}", k.as_str())
+            }
+        }
+    }
+
+    pub fn step(&mut self, toks: &[&str]) -> String {
+        if toks.is_empty() {
+            return "bad-op".into();
+        }
+        if toks[0] == "@" {
+            return match toks[1] {
+                "new" => {
+                    let (r, c) = toks[2].split_once('x').expect("RxC");
+                    let (r, c): (usize, usize) = (r.parse().unwrap(), c.parse().unwrap());
+                    let via = opt_arg("via", toks).unwrap_or("from");
+                    let built = match via {
+                        "from" => catch(|| {
+                            Matrix::from(
+                                (0..r)
+                                    .map(|i| (0..c).map(|j| (i * c + j + 1) as u64).collect::<Vec<u64>>())
+                                    .collect::<Vec<Vec<u64>>>(),
+                            )
+                        }),
+                        "flat" => catch(|| {
+                            Matrix::from_flat_row_major((r, c), (1..=(r * c) as u64).collect::<Vec<u64>>())
+                        }),
+                        _ => catch(|| Matrix::from_fn((r, c), |(i, j)| (i * c + j + 1) as u64)),
+                    };
+                    self.construct(built)
+                }
+                "from" => {
+                    let rows: Vec<Vec<u64>> = if toks[2] == "none" {
+                        vec![]
+                    } else {
+                        toks[2].split(';').map(parse_vals).collect()
+                    };
+                    self.construct(catch(|| Matrix::from(rows)))
+                }
+                "flat" => {
+                    let (r, c): (usize, usize) = (toks[2].parse().unwrap(), toks[3].parse().unwrap());
+                    let vals = parse_vals(toks[4]);
+                    self.construct(catch(|| Matrix::from_flat_row_major((r, c), vals)))
+                }
+                _ => "bad-op".into(),
+            };
+        }
+        let m = match self.m.as_mut() {
+            Some(m) => m,
+            None => return "no-matrix".into(),
+        };
+        if toks[0] == "try" {
+            // the operation on a clone: the matrix itself is left as it is (a matrix whose
+            // invariant is already broken cannot be cloned; that state was reported earlier)
+            let mut copy = match catch(|| m.clone()) {
+                Ok(c) => c,
+                Err(k) => return format!("clone-panicked {}", k.as_str()),
+            };
+            return match apply(&mut copy, &toks[1..]) {
+                Some(outcome) => answer(outcome, &copy),
+                None => "bad-op".into(),
+            };
+        }
+        match apply(m, toks) {
+            Some(outcome) => answer(outcome, m),
+            None => "bad-op".into(),
+        }
     }
 }
